@@ -41,6 +41,7 @@ def ext_callable(ex, args, kw):
     k = ex.path.choose(4)
     if k == 0:
         return SV(ValS, z3.Const(fresh_name('cbret'), Val))
+    gset(ex, 'cb_raised', mk_bool(True))
     raise_exc(ex, ['AnyException', 'MemoryError', 'AnyBaseException'][k - 1])
 
 
@@ -85,6 +86,7 @@ def declare_handles(w, kind='apply'):
         'assigned': MapS(IntS, IntS),       # _set invocations per job id
         'releases': IntS,                   # LaxBoundedSemaphore.release() calls
         'acks_sent': IntS,
+        'cb_raised': BoolS,                 # some user callback has raised
     })
     J = w.classes['Job']
     J.fields.pop('_event_flag', None)
@@ -122,8 +124,9 @@ SET_STATE = {
     'event_set': 'self._event.flag',
     'own_outcome': 'self._success == obj[0] and self._value == obj[1]',
     'removed_iff_accepted': 'has(self._cache, self._job) == (old(has(self._cache, self._job)) and not self._accepted)',
-    'other_jobs_stay_in_cache': 'all(has(self._cache, k) == old(has(self._cache, k)) for k in ints() if k != self._job)',
+    'other_jobs_stay_in_cache': 'only_key_changed(self._cache, self._job)',
     'counted': 'g.assigned[self._job] == old(g.assigned[self._job]) + 1',
+    'only_own_count': 'map_only_changed(g.assigned, old(g.assigned), self._job)',
 }
 SET_CALLBACKS = {
     'success_callback_at_most_once': 'implies(self._callback is not None, '
@@ -150,10 +153,11 @@ def set_contract(prop):
         params={'self': ref('Job'), 'i': opt(IntS), 'obj': tup(BoolS, ValS)},
         requires=JOB_INV,
         modifies=['self._success', 'self._value', 'self._event.flag', 'self._cache.has',
-                  'self._cache.size', 'g.ncalls', 'g.assigned'],
+                  'self._cache.size', 'g.ncalls', 'g.assigned', 'g.cb_raised'],
         ghost_entry=ghost_assigned,
         ensures=dict(st, **SET_CALLBACKS),
-        raises={'MemoryError': st, 'AnyException': st, 'AnyBaseException': st},
+        raises={'MemoryError': dict(st, cb='g.cb_raised'), 'AnyException': dict(st, cb='g.cb_raised'),
+                'AnyBaseException': dict(st, cb='g.cb_raised')},
     )
 
 
@@ -161,7 +165,7 @@ ACK_STATE = {
     'accepted': 'self._accepted',
     'removed_iff_ready': 'has(self._cache, self._job) == (old(has(self._cache, self._job)) and '
                          '(not self._event.flag or refused))',
-    'other_jobs_stay_in_cache': 'all(has(self._cache, k) == old(has(self._cache, k)) for k in ints() if k != self._job)',
+    'other_jobs_stay_in_cache': 'only_key_changed(self._cache, self._job)',
     'outcome_untouched': 'self._success == old(self._success) and self._value == old(self._value) '
                          'and self._event.flag == old(self._event.flag)',
 }
@@ -181,7 +185,7 @@ def ack_contract(prop):
                 'synqW_fd': opt(IntS)},
         requires=JOB_INV,
         modifies=['self._accepted', 'self._time_accepted', 'self._worker_pid', 'self._cache.has',
-                  'self._cache.size', 'g.ncalls'],
+                  'self._cache.size', 'g.ncalls', 'g.cb_raised'],
         returns=ValS,
         # same test as the code: a cancelled job is refused when the handshake is in use
         lets={'refused': 'old(self._cancelled) and self._send_ack'},
@@ -201,7 +205,7 @@ def set_terminated_contract(prop):
         params={'self': ref('Job'), 'signum': opt(IntS)},
         requires=JOB_INV,
         modifies=['self._success', 'self._value', 'self._event.flag', 'self._cache.has',
-                  'self._cache.size', 'g.ncalls', 'g.assigned'],
+                  'self._cache.size', 'g.ncalls', 'g.assigned', 'g.cb_raised'],
         lets={'code': '-(val(signum) if signum is not None and signum != 0 else 0)'},
         ensures={'failed_with_terminated': 'self._event.flag and not self._success and '
                                            'self._value == einfo(Terminated(code))',
@@ -218,7 +222,7 @@ def discard_contract(prop):
         params={'self': ref('Job')},
         modifies=['self._cache.has', 'self._cache.size'],
         ensures={'removed': 'not has(self._cache, self._job)',
-                 'others_stay': 'all(has(self._cache, k) == old(has(self._cache, k)) for k in ints() if k != self._job)'},
+                 'others_stay': 'only_key_changed(self._cache, self._job)'},
     )
 
 
